@@ -79,6 +79,9 @@ def gen_cases(kind, n, salt):
     elif kind == "mset":
         for i in range(n):
             cases.append(("mset", i, None, {"strategy": "auto", "lists": "on"}))
+    elif kind == "msetdup":
+        for i in range(n):
+            cases.append(("msetdup", i, None, {"strategy": "auto", "lists": "on"}))
     elif kind == "xml":
         for i in range(n):
             cases.append(("xml", i, None, r.choice(docs.ALL_OPTS[:3] + docs.ALL_OPTS[6:])))
@@ -94,6 +97,9 @@ def build_pair(case, salt):
     if kind == "mset":
         r = rng("mset", salt, a)
         return docs.random_mset_tree(r), docs.random_mset_tree(r)
+    if kind == "msetdup":
+        r = rng("msetdup", salt, a)
+        return docs.random_mset_tree(r, dup=True), docs.random_mset_tree(r, dup=True)
     if kind == "xml":
         r = rng("xml", salt, a)
         e = docs.random_xml_element(r)
